@@ -261,8 +261,14 @@ def md7(F, R):
                 if guarded(fn, b, same)[0]:
                     R.ok(fn, key + ":revalidation", "repeated validation %s with identical arguments after a successful one; tables are not mutated in this function, so this exit is infeasible" % key, fn.loc(b, i))
                     continue
-            # the refusing call itself is atomic (it is the source of this refusal)
-            bad = [e for e in effs if b in fn.reach_after(e[0]) and not (src is not None and e[0] == src[3])]
+            # the refusing call itself is atomic (it is the source of this refusal) - also when its failure is translated by an
+            # explicit `Err(_) => Err(Other)` arm instead of map_err: a refusal built on the failure edges of an effect call
+            # reports that call's own refusal
+            from .ev import failure_edges
+            def own_failure(e):
+                fe = failure_edges(fn, e[0])
+                return bool(fe) and b not in fn.reach([fn.succ(e[0])[0][0]] if fn.succ(e[0]) else [], cut_edges=fe)
+            bad = [e for e in effs if b in fn.reach_after(e[0]) and not (src is not None and e[0] == src[3]) and not own_failure(e)]
             if bad:
                 for e in bad:
                     R.bad(fn, key + "<-" + eff_key(e), "refusal %s reachable after effect %s %s" % (key, e[2], e[3]), fn.loc(b, i),
@@ -580,6 +586,30 @@ def ls3(F, R):
 
 # ---------------------------------------------------------------------------------------
 # seeks
+
+
+@rule("HV4", ["C08"], floor=10,
+      doc="a stale handle is answered with BadHandle: in every VolumeManager function the Result of get_volume_by_id / get_dir_by_id / get_file_by_id is consumed by `?` (or returned as it is) - it is never flattened with .ok() / .is_ok() / unwrap_or or matched into another error, which would report a closed handle as some other failure (InvalidOffset, NotFound ..) or as success")
+def hv4(F, R):
+    n = 0
+    for fn in F.fns:
+        if not fn.npath.startswith((VM + "::", VMD + "::")) or fn.kind == "Closure":
+            continue
+        for b, t in fn.calls():
+            if not call_matches(t, (VMD + "::get_volume_by_id", VMD + "::get_dir_by_id", VMD + "::get_file_by_id")):
+                continue
+            n += 1
+            dl = t["dest"]["l"]
+            # uses of the result local: the operand of Try::branch, a plain return, or a match on it whose Err arm rebuilds
+            # Err(the same payload)
+            uses = []
+            for b2, t2 in fn.calls():
+                for a in t2["args"]:
+                    if a.get("k") in ("move", "copy") and a["p"]["l"] == dl:
+                        uses.append((b2, callee_of(t2) or ""))
+            flat = [u for u in uses if u[1].split("::")[-1] in ("ok", "is_ok", "is_err", "unwrap_or", "unwrap_or_default", "unwrap_or_else", "map_or", "map_or_else", "err", "is_ok_and", "is_err_and", "and", "or", "or_else")]
+            R.require(not flat, fn, "lookup-not-flattened:%s" % fn.npath.split("::")[-1], "the result of a handle lookup is flattened by %s: a closed / foreign handle is no longer reported as BadHandle" % sorted({u[1].split("::")[-1] for u in flat}), fn.loc(b))
+    R.require(n >= 10, None, "sites", "expected >= 10 handle lookups in VolumeManager, found %d" % n)
 
 
 def _seek_eval(F, name, size, cur, arg):
